@@ -59,8 +59,8 @@ Print Assumptions C01_names_distinct.
 Definition jets : collref := {| c_base := "jets"; c_ctype := "const xAOD::JetContainer*"; c_bank := "aj"; c_arrow := true |}.
 Definition trks : collref := {| c_base := "tracks"; c_ctype := "const xAOD::TrackParticleContainer*"; c_bank := "t"; c_arrow := true |}.
 Definition q0 : ex :=
-  EBin OAdd (ECount {| k_coll := jets; k_guard := GNest [{| p_neg := false; p_op := ">"; p_l := PMeth "pt"; p_r := PInt 30 |}]; k_agg := ACount |})
-            (EBin OMul (EInt 2) (ECount {| k_coll := trks; k_guard := GNest []; k_agg := ACount |})).
+  EBin OAdd (ECount {| k_coll := jets; k_guard := GOne {| p_neg := false; p_op := ">"; p_l := PMeth "pt"; p_r := PInt 30 |}; k_agg := ACount |})
+            (EBin OMul (EInt 2) (ECount {| k_coll := trks; k_guard := GNone; k_agg := ACount |})).
 Definition ev0 : event :=
   {| ev_colls := [(("const xAOD::JetContainer*", "aj"), VVec [VObj 0; VObj 1; VObj 2]);
                   (("const xAOD::TrackParticleContainer*", "t"), VVec [VObj 3; VObj 4])];
@@ -100,9 +100,9 @@ Proof. exact frag_row_correct. Qed.
 Print Assumptions C01_fragment_row.
 
 Definition r0 : row :=
-  [("pts", ColVec jets (GNest [{| p_neg := false; p_op := ">"; p_l := PMeth "pt"; p_r := PInt 30 |}]) (PBin "*" (PMeth "pt") (PInt 2)));
+  [("pts", ColVec jets (GOne {| p_neg := false; p_op := ">"; p_l := PMeth "pt"; p_r := PInt 30 |}) (BPa (PBin "*" (PMeth "pt") (PInt 2))));
    ("n", ColScalar q0);
-   ("s", ColScalar (ECount {| k_coll := trks; k_guard := GNest []; k_agg := ASum (PMeth "pt") |}))].
+   ("s", ColScalar (ECount {| k_coll := trks; k_guard := GNone; k_agg := ASum (BPa (PMeth "pt")) |}))].
 Definition ev1 : event :=
   {| ev_colls := ev_colls ev0;
      ev_meths := ev_meths ev0 ++ [((3, "pt"), VDbl (QArith_base.inject_Z 5)); ((4, "pt"), VDbl (QArith_base.inject_Z 7))] |}.
@@ -161,9 +161,9 @@ Print Assumptions C01_selectmany_is_map_filter.
 
 (* non-vacuity: events with more than one jet give one row (2*pt, 1) per jet with pt > 30 *)
 Definition q1 : query :=
-  {| q_filter := Some (EBin OGt (ECount {| k_coll := jets; k_guard := GNest []; k_agg := ACount |}) (EInt 1));
-     q_body := QMany jets (GNest [{| p_neg := false; p_op := ">"; p_l := PMeth "pt"; p_r := PInt 30 |}])
-                     [("a", PBin "*" (PMeth "pt") (PInt 2)); ("b", PInt 1)] |}.
+  {| q_filter := Some (EBin OGt (ECount {| k_coll := jets; k_guard := GNone; k_agg := ACount |}) (EInt 1));
+     q_body := QMany jets (GOne {| p_neg := false; p_op := ">"; p_l := PMeth "pt"; p_r := PInt 30 |})
+                     [("a", BPa (PBin "*" (PMeth "pt") (PInt 2))); ("b", BPa (PInt 1))] |}.
 Definition ev2 : event :=
   {| ev_colls := [(("const xAOD::JetContainer*", "aj"), VVec [VObj 7])]; ev_meths := [((7, "pt"), VInt 99)] |}.
 Example C01_query_nonvacuous_premises :
@@ -197,8 +197,8 @@ Proof. exact first_col_linq. Qed.
 Print Assumptions C01_first_is_linq.
 
 Definition r2 : row :=
-  [("lead", ColFirst jets (GNest [{| p_neg := false; p_op := ">"; p_l := PMeth "pt"; p_r := PInt 30 |}]) (PDiv (PMeth "pt") (PInt 2)) "throw std::runtime_error(""First() called on an empty sequence"");");
-   ("n", ColScalar (ECount {| k_coll := jets; k_guard := GNest []; k_agg := ACount |}))].
+  [("lead", ColFirst jets (GOne {| p_neg := false; p_op := ">"; p_l := PMeth "pt"; p_r := PInt 30 |}) (PDiv (PMeth "pt") (PInt 2)) "throw std::runtime_error(""First() called on an empty sequence"");");
+   ("n", ColScalar (ECount {| k_coll := jets; k_guard := GNone; k_agg := ACount |}))].
 Definition ev3 : event :=
   {| ev_colls := [(("const xAOD::JetContainer*", "aj"), VVec [VObj 0; VObj 1; VObj 2])];
      ev_meths := [((0, "pt"), VDbl (QArith_base.inject_Z 10)); ((1, "pt"), VDbl (QArith_base.inject_Z 31)); ((2, "pt"), VDbl (QArith_base.inject_Z 45))] |}.
@@ -224,3 +224,13 @@ Theorem C01_query_job_miniaod :
   run_job (prog_q_mini bk q n0) evs = djob q evs.
 Proof. exact frag_job_correct_mini. Qed.
 Print Assumptions C01_query_job_miniaod.
+
+(* ---------- conditional expressions in element bodies ---------- *)
+(* `a if c else b` in the body of a vector column, of a Sum and of a SelectMany row is part of the fragment (the
+   theorems above quantify over these bodies).  The emitted code evaluates the conditionals of a body first, then the
+   expression reading them; the reference does the same, and it has a value exactly when the ordinary recursive
+   evaluation has that value (they can differ only in which fault an undefined body raises). *)
+Theorem C01_body_reference_is_natural :
+  forall (ev : event) (v : value) (e : bexp) (x : value), db ev v e = ROk x <-> dnat ev v e = ROk x.
+Proof. exact db_is_natural. Qed.
+Print Assumptions C01_body_reference_is_natural.
